@@ -166,7 +166,7 @@ def bounded(tier, seed):
                     ref = out
                 elif any(not np.array_equal(ref[k], out[k]) for k in ref):
                     col.add({"sig": "native::chain::chunk_dependence", "what": "stored results differ between chunk sizes for key-ignoring kernels", "input": {"schedule": s, "chunk": chunk}})
-    for inc, exc, shape in ((["q"], [], (3,)), (["q"], ["p1"], ()), ([], ["p0"], (2, 2)), ([], ["p0", "p1"], ())):
+    for inc, exc, shape in ((["q"], [], (3,)), (["q"], ["p1"], ()), ([], ["p0"], (2, 2)), ([], ["p0", "p1"], ()), (["q", "p0"], ["q"], ()), (["q"], ["q", "p1"], (2,))):
         builder_case(col, inc, exc, shape)
         n_cases += 1
     return {
